@@ -151,8 +151,8 @@ def search(pid, subname, tier, shard, nshards, seed, out, known):
             stats.record(case, ctx, "violation")
             state["last"] = (case, v)
             state["history"] = list(stats.recent)
-            if v.tag.startswith("no-return@"):
-                raise AbortSearch()          # shrinking a call that never returns would cost the CPU limit per attempt
+            if v.tag.startswith("no-return@") or v.tag.startswith("exception:MemoryError@"):
+                raise AbortSearch()          # shrinking a call that never returns / exhausts memory would cost the limit per attempt
             raise
 
     if sc.enumerate_cases is not None:
@@ -169,7 +169,7 @@ def search(pid, subname, tier, shard, nshards, seed, out, known):
                     v = state["last"][1]
                 if len(violations) < MAX_ROOT_CAUSES and v.tag not in [x["tag"] for x in violations]:
                     violations.append({"tag": v.tag, "msg": v.msg, "details": _js(v.details), "case": case})
-                if v.tag.startswith("no-return@"):
+                if v.tag.startswith("no-return@") or v.tag.startswith("exception:MemoryError@"):
                     break
             except HarnessError as e:
                 harness_error = str(e)
@@ -294,8 +294,25 @@ def pre(pid, tier, out):
         json.dump(res, f)
 
 
+def limit_memory():
+    """Runaway allocation in the code under test (e.g. an endless list) must surface as MemoryError inside the case - an
+    exception the check reports - not as an OOM kill of the worker.  VERIF_MEM_MB (default 3072) caps the address space."""
+    try:
+        import resource
+        mb = int(os.environ.get("VERIF_MEM_MB", "3072"))
+        if mb > 0:
+            soft, hard = resource.getrlimit(resource.RLIMIT_AS)
+            lim = mb * 1024 * 1024
+            if hard != resource.RLIM_INFINITY:
+                lim = min(lim, hard)
+            resource.setrlimit(resource.RLIMIT_AS, (lim, hard))
+    except Exception:
+        pass
+
+
 def main(argv):
     pid, mode = argv[0], argv[1]
+    limit_memory()
     import geomdl
     root = os.path.abspath(core.repo_root())
     if not os.path.abspath(geomdl.__file__).startswith(root):
